@@ -377,4 +377,5 @@ def run(tier, seed, replay):
         model_expr=model_expr, canon_model=canon_model, canon_impl=canon_impl, oracle=oracle, nontrivial=nontrivial,
         rule="(a) apply_newline_style on random texts over {a, space, CR, LF, TAB} x 4 styles; (b) push_vertical_spaces for lower/upper bounds 0..3 x 0..4 trailing newlines x counts 0..5; (c) Indent::to_string / from_width for hard_tabs x tab_spaces 1..8; (d) remove_trailing_white_spaces and the trailing-newline cut on random code/comment/string fragments; each compared with the model and judged by the property's clause; (e) the discipline on the emitted text of pool programs (see e2e_rule). non-trivial = the pass changed something; distinct by hash",
         extra=e2e, per_file=200,
+        ties=["C08"],
     )
